@@ -327,6 +327,7 @@ func runRace(t *rapid.T) {
 	}
 	s := w.s
 	s.TraceOn = hx.Replaying()
+	s.Note(hx.Fingerprint(*p))
 	nact := len(p.Progs)
 	done := make([]bool, nact)
 	s.Spawn("init", func() {
